@@ -1,13 +1,17 @@
-"""C08 (uniquify makes every non-leaf instance unique without changing the design): bounded stand-in on spydrnet.uniquify.uniquify."""
-from props import _designb
-LEVEL = 'exploration'
+"""C08 (uniquify makes every non-leaf instance unique without changing the design): contract on the decision step _is_unique (pyvc suite
+'uniq') + bounded stand-in on spydrnet.uniquify.uniquify."""
+from props import _designb, _pv
+LEVEL = 'other'
 PID = 'C08'
 RULE = ('distinct = distinct abstract design (hash of the AD); non-trivial = at least one non-leaf definition reachable from the top '
         'that is instanced more than once')
 
 
 def run(rep, tier, seed):
-    rep.explanation = ('bounded stand-in only: sole-reference of every reachable non-leaf instance, independent elaboration before/after, Inv, fresh names AND fresh '
+    failed = _pv.run_suite(rep, PID, 'uniq', tier)
+    rep.explanation = ('helper level (P): uniquify._is_unique(instance) is True exactly when the instance\'s definition is instantiated once (cardinality of its reference set) or is a leaf '
+                       '(no children, no cables), writes nothing and does not raise, for all heaps satisfying Inv -- the test that decides which instances the work-list leaves alone; '
+                       '_make_instance_unique and the work-list itself: bounded stand-in: sole-reference of every reachable non-leaf instance, independent elaboration before/after, Inv, fresh names AND fresh '
                        'EDIF identifiers (ignoring case) in the original library, idempotence; designs are also rebuilt through construction histories that '
                        'leave instance pin dictionaries out of port order (late / inserted / permuted ports and pins, use-before-declaration Verilog) and '
                        'under both naming policies with left-over <name>_sdn_unique_<k> names / identifiers and several states of the suffix counter')
@@ -15,7 +19,11 @@ def run(rep, tier, seed):
                        'oracles (canon / elab / occurrence enumeration / Inv) read public attributes only and are calibrated against an AD-level elaborator']
     fails = _designb.run_designs(rep, PID, tier, seed, RULE, extra_bounds={'uniquify_counter': 'reset to 0 before every case, then advanced to c in {0,1,2,3,5} by a real warm-up uniquify call in the naming variants', 'policies': ['DEFAULT', 'EDIF'], 'variants_per_design': 'history, naming, history+naming, left-over names, left-over identifiers'})
     _designb.report_failures(rep, PID, fails)
+    _pv.report_failed(rep, failed)
+    rep.trusted = list(getattr(rep, 'trusted', []) or []) + ['pyvc VC generator (DESIGN.md 3), z3/cvc5', 'IR heap model (reference sets as Bool arrays with a cardinality function) of pyvc/logic.py']
+    rep.assumptions.append('helper contract: the instance has a definition (uniquify reaches instances through children lists of a well-formed netlist); the netlist satisfies Inv')
 
 
 def replay(path):
+    if _pv.replay_obligation(path): return 0
     return _designb.replay(path, PID)
